@@ -14,8 +14,9 @@ Traces == ndJsonDeserialize(IOEnv.VERIF_TRACES)
 PeerDef == <<2, 1, 4, 3>>
 Threads == 1..4
 
-VARIABLES id, l, call, expect
-vars == <<chan, open, ever, cbmode, id, l, call, expect>>
+VARIABLES id, l, call, expect,
+          got      \* [Keys -> Seq(msg)] what the receive callback of the key's owner has been handed so far (history)
+vars == <<chan, open, ever, cbmode, id, l, call, expect, got>>
 Tr == Traces[id].events
 Eps == Traces[id].endpoints          \* thread -> [key, cb]
 KeyOf(t) == Eps[t].key
@@ -23,25 +24,29 @@ Idle == [op |-> "", arg |-> "", st |-> "idle", res |-> "", conn |-> FALSE]
 
 Init == AInit /\ id \in DOMAIN Traces /\ l = 1
         /\ call = [t \in Threads |-> Idle] /\ expect = [t \in Threads |-> << >>]
+        /\ got = [k \in Keys |-> << >>]
+RECURSIVE Joined(_)
+Joined(s) == IF s = << >> THEN "" ELSE Head(s) \o "|" \o Joined(Tail(s))
 
 Ev == Tr[l]
 TCall == /\ l <= Len(Tr) /\ Ev.ev = "call" /\ call[Ev.t].st = "idle"
          /\ call' = [call EXCEPT ![Ev.t] = [op |-> Ev.op, arg |-> Ev.arg, st |-> "called", res |-> "",
                                               conn |-> Connected(KeyOf(Ev.t))]]
-         /\ l' = l + 1 /\ UNCHANGED <<avars, id, expect>>
+         /\ l' = l + 1 /\ UNCHANGED <<avars, id, expect, got>>
 TRet == /\ l <= Len(Tr) /\ Ev.ev = "ret"
         /\ call[Ev.t].st = "lin" /\ call[Ev.t].res = Ev.res /\ expect[Ev.t] = << >>
         /\ call' = [call EXCEPT ![Ev.t] = Idle]
-        /\ l' = l + 1 /\ UNCHANGED <<avars, id, expect>>
+        /\ l' = l + 1 /\ UNCHANGED <<avars, id, expect, got>>
 TCb == /\ l <= Len(Tr) /\ Ev.ev = "cb"
        /\ expect[Ev.t] = <<Ev.key, Ev.msg>>
        /\ expect' = [expect EXCEPT ![Ev.t] = << >>]
+       /\ got' = [got EXCEPT ![Ev.key] = Append(@, Ev.msg)]
        /\ l' = l + 1 /\ UNCHANGED <<avars, id, call>>
 
 Done(t, res) == call' = [call EXCEPT ![t].st = "lin", ![t].res = res]
 Lin(t) ==
   LET c == call[t]  k == KeyOf(t) IN
-  /\ c.st \in {"called", "announced", "b1", "b2", "b3"} /\ UNCHANGED <<id, l>>
+  /\ c.st \in {"called", "announced", "b1", "b2", "b3"} /\ UNCHANGED <<id, l, got>>
   /\ CASE c.op = "connect" /\ c.st = "called" ->
             Announce(k, Eps[t].cb) /\ call' = [call EXCEPT ![t].st = "announced"] /\ UNCHANGED expect
        [] c.op = "connect" /\ c.st = "announced" ->
@@ -81,11 +86,15 @@ Lin(t) ==
             CanSeePeer(Eps[t].keys[2]) /\ Done(t, "ok") /\ UNCHANGED <<avars, expect>>
        [] c.op = "brecv" /\ c.st = "called" ->
             \E i \in 1..2 : Recv(Eps[t].keys[i]) /\ Done(t, ToString(i) \o ":" \o Head(chan[Eps[t].keys[i]])) /\ UNCHANGED expect
+       \* a storing socket (the package's callback socket that keeps what it is handed): what it holds is what ITS callback
+       \* was handed, in that order
+       [] c.op = "stored" /\ c.st = "called" ->
+            Done(t, Joined(got[k])) /\ UNCHANGED <<avars, expect>>
        [] c.op = "disconnect" /\ c.st = "called" ->
             Disconnect(k) /\ Done(t, "ok") /\ UNCHANGED expect
        [] OTHER -> FALSE
 TReset == /\ l <= Len(Tr) /\ Ev.ev = "reset" /\ \A t \in Threads : call[t].st = "idle"
-          /\ Reset /\ l' = l + 1 /\ UNCHANGED <<id, call, expect>>
+          /\ Reset /\ l' = l + 1 /\ UNCHANGED <<id, call, expect, got>>
 Next == TCall \/ TRet \/ TCb \/ TReset \/ \E t \in Threads : Lin(t)
 Spec == Init /\ [][Next]_vars
 
